@@ -13,8 +13,12 @@ paths listed as assumed):
     the source token sequence — this last induction over the LR run is NOT mechanised (M-LR of
     DESIGN.md §3 was not built); the oracle checks its conclusion on the real code, with
     production coverage reported.
-Tie: T-gen (actions, printer table, schema).  The byte-level `write` state machine is checked
-by the oracle only.
+Tie: T-gen (actions, printer table, schema); T-diff diff-printer (M-PRINT + M-RENDER vs the real
+printer, byte for byte).
+  * byte level (`print_complete_tree`): a tree that has all its tokens (`Tree.complete`: no
+    statement needs a default lexeme) and whose inline-HTML nodes each follow a close tag is printed
+    as exactly the concatenation of its tokens' texts, free-floating first — the printer adds no
+    `<?php `, no blank, no `?>` and drops nothing.
 -/
 namespace PhpVerif.C02
 open PhpVerif
@@ -44,5 +48,44 @@ theorem stored_in_order5 (p : PathSum) (hp : p ∈ Gen.paths5) (hk : p.kind = 0 
 /-- the printer emits the fields of every kind in declaration order, each once -/
 theorem printer_follows_fields (k : Nat) :
     C15.fieldOrder (C15.printF k) = C15.printedIdx (C15.sch k) := C15.printer_order_row k
+
+/-- inline HTML finds a close tag (or the start of the output) before it -/
+def htmlQuiet : Option Bytes → List Item → Bool
+  | _, [] => true
+  | last, .tok t :: r => htmlQuiet (lastAfter last t) r
+  | last, .htmlOpen :: r =>
+      (match last with
+       | none => true
+       | some l => hasSuffix (trimRightNl l) closeTag) && htmlQuiet last r
+  | last, _ :: r => htmlQuiet last r
+
+theorem tokensOnly_of_pure (last : Option Bytes) (l : List Item)
+    (hp : pureItems l = true) (hq : htmlQuiet last l = true) : tokensOnly last l = true := by
+  induction l generalizing last with
+  | nil => rfl
+  | cons i r ih =>
+    simp only [pureItems, List.all_cons, Bool.and_eq_true] at hp
+    cases i with
+    | tok t => simpa [tokensOnly] using ih _ hp.2 (by simpa [htmlQuiet] using hq)
+    | lit id => simp [Item.pure] at hp
+    | own v => simp [Item.pure] at hp
+    | htmlOpen =>
+      simp only [htmlQuiet, Bool.and_eq_true] at hq
+      simp only [tokensOnly, Bool.and_eq_true]
+      exact ⟨hq.1, ih _ hp.2 hq.2⟩
+    | htmlClose => simpa [tokensOnly] using ih _ hp.2 (by simpa [htmlQuiet] using hq)
+
+/-- BYTE LEVEL: a complete tree is printed as exactly its tokens' bytes in write order. -/
+theorem print_complete_tree (t : Tree) (hc : t.complete C15.realCfg = true)
+    (hq : htmlQuiet none (chunks C15.realCfg false t) = true) :
+    C15.printBytes t = (chunks C15.realCfg false t).flatMap (itemBytes C15.litBytes) := by
+  have hp := pure_chunks C15.realCfg false t hc
+  have := tokensOnly_out C15.litBytes (chunks C15.realCfg false t) {} (tokensOnly_of_pure none _ hp hq)
+  simpa [C15.printBytes, render] using this
+
+/-- non-vacuity: `Root{Stmts: [], EndTkn: tok "A" with free-floating " "}` is complete and quiet -/
+example : (Tree.mk 0 0 none [[], [], [{ uid := 1, id := 0, val := [65], ff := [{ id := 0, val := [32] }] }]] [] [] []).complete C15.realCfg = true
+    ∧ htmlQuiet none (chunks C15.realCfg false (Tree.mk 0 0 none [[], [], [{ uid := 1, id := 0, val := [65], ff := [{ id := 0, val := [32] }] }]] [] [] [])) = true := by
+  decide +kernel
 
 end PhpVerif.C02
